@@ -1,0 +1,53 @@
+// Copyright 2021-2022 Buf Technologies, Inc.
+//
+// Licensed under the Apache License, Version 2.0 (the "License");
+// you may not use this file except in compliance with the License.
+// You may obtain a copy of the License at
+//
+//      http://www.apache.org/licenses/LICENSE-2.0
+//
+// Unless required by applicable law or agreed to in writing, software
+// distributed under the License is distributed on an "AS IS" BASIS,
+// WITHOUT WARRANTIES OR CONDITIONS OF ANY KIND, either express or implied.
+// See the License for the specific language governing permissions and
+// limitations under the License.
+
+//go:build verif
+
+package connect
+
+import (
+	"errors"
+	"time"
+)
+
+// This file is only compiled with the "verif" build tag. It gives the
+// verification harness in /verif direct access to a few pure helpers whose
+// names are pinned by this package's own tests.
+
+// VerifGRPCEncodeTimeout exposes grpcEncodeTimeout.
+func VerifGRPCEncodeTimeout(timeout time.Duration) (string, error) {
+	return grpcEncodeTimeout(timeout)
+}
+
+// VerifGRPCParseTimeout exposes grpcParseTimeout; noTimeout reports whether
+// the error is errNoTimeout.
+func VerifGRPCParseTimeout(timeout string) (time.Duration, bool, error) {
+	duration, err := grpcParseTimeout(timeout)
+	return duration, err != nil && errors.Is(err, errNoTimeout), err
+}
+
+// VerifGRPCPercentEncode exposes grpcPercentEncode.
+func VerifGRPCPercentEncode(msg string) string {
+	return grpcPercentEncode(newBufferPool(), msg)
+}
+
+// VerifGRPCPercentDecode exposes grpcPercentDecode.
+func VerifGRPCPercentDecode(encoded string) string {
+	return grpcPercentDecode(newBufferPool(), encoded)
+}
+
+// VerifExtractProtoPath exposes extractProtoPath.
+func VerifExtractProtoPath(url string) string {
+	return extractProtoPath(url)
+}
